@@ -284,6 +284,9 @@ var churnKeep [][]byte
 
 // GC is the simulator's GC event: two full collections with heap churn in between, so that an
 // object freed by the first one is reused (or, with GODEBUG=clobberfree=1, overwritten).
+// norace: it runs on whichever task the scheduler picked and touches harness state only.
+//
+//go:norace
 func GC() {
 	runtime.GC()
 	churnKeep = churnKeep[:0]
